@@ -62,7 +62,11 @@ func runC(raw json.RawMessage) *core.Violation {
 	x.dead = "stalled"
 	w.anyDead = true
 	ts := fx.TS
-	v := core.WithWatchdog(wsx.Watchdog, "first-send-with-stalled-client:"+c.First, func() *core.Violation {
+	outer := wsx.Watchdog
+	if c.First == "connect" {
+		outer = 3 * wsx.Watchdog // the arrival is judged by the 20 s watchdog on the newcomer's own frames
+	}
+	v := core.WithWatchdog(outer, "first-send-with-stalled-client:"+c.First, func() *core.Violation {
 		switch c.First {
 		case "console":
 			return w.step(Op{K: "console"})
@@ -75,6 +79,9 @@ func runC(raw json.RawMessage) *core.Violation {
 			return w.connect("replay")
 		}
 	})
+	if v != nil && c.First == "connect" {
+		v.Sig = "hang|first-send-with-stalled-client:connect|newcomer-never-gets-its-replay"
+	}
 	if v == nil {
 		// and the agent-side path afterwards
 		v = core.WithWatchdog(wsx.Watchdog, "agent-output-after-stall", func() *core.Violation {
